@@ -114,6 +114,10 @@ def shard(binpath, seed, sh, plans, tz=None):
             child = node["steps"][j]["evidence"][0]["node"]
             child["layout"]["expires"] = text
             node["_swept"] = child
+            if rng.random() < 0.2:
+                # a delegated layout that asks for nothing (no steps, no inspections) expires like any other
+                child["layout"]["steps"], child["layout"]["inspect"], child["steps"] = [], [], []
+                node["_empty_sub"] = True
             if level == "sub_surplus":
                 # the delegated step has a second authorised functionary who supplies a perfectly good plain link: there is
                 # enough evidence without the sub-layout, whose expiry must be fatal all the same
@@ -143,7 +147,7 @@ def shard(binpath, seed, sh, plans, tz=None):
         wires[target["req"]] = w
         files = pipeline.tree_files(W, node, wires)
         ncls = ("Z" if offset is None else ("zero-offset" if offset in ("+00:00", "-00:00") else "offset"))
-        meta = {"level": level, "surplus": surplus, "text": text, "instant_ns": str(instant_ns), "notation_class": ncls,
+        meta = {"level": level, "surplus": surplus, "empty_sub": bool(node.get("_empty_sub")), "text": text, "instant_ns": str(instant_ns), "notation_class": ncls,
                 "frac": bool(frac), "style": style,
                 "delta_s": delta if isinstance(delta, str) else round(delta, 1)}
         # the caller may ask for the summary under a name: that has nothing to do with the expiry check
@@ -178,6 +182,8 @@ def shard(binpath, seed, sh, plans, tz=None):
         cls += [f"summary_name_{m['summary_name']}:{x}" for x in out]
         if m.get("surplus"):
             cls += [f"sub_layout_next_to_other_evidence:{x}" for x in out]
+        if m.get("empty_sub"):
+            cls += [f"sub_layout_without_steps:{x}" for x in out]
         if m["style"] != "T_Z":
             cls += [f"style:{m['style']}:{x}" for x in out]
         if "unexpired_rejected" in out:
